@@ -91,8 +91,8 @@ func main() {
 	}
 
 	// budgets
-	nComp, nDBSmall, nDB := 16000, 400, 160
-	kComp, kDB := 500, 300
+	nComp, nDBSmall, nDB := 10000, 320, 120
+	kComp, kDB := 400, 240
 	maxMoves := 200
 	if a.Thorough() {
 		nComp, nDBSmall, nDB = 400000, 6000, 3000
